@@ -1,15 +1,15 @@
-SPECIFICATION Spec
+SPECIFICATION SimSpec
 CONSTANTS
-  WorkerCpus <- A_Workers
-  Menu <- A_Menu
-  Classes <- A_Classes
-  MaxLosses = 1
-  MaxCancels = 1
-  MaxFails = 1
-  MaxLaunchFails = 0
+  WorkerCpus <- S1_Workers
+  Menu <- S1_Menu
+  Classes <- S1_Classes
+  MaxLosses = 2
+  MaxCancels = 2
+  MaxFails = 2
+  MaxLaunchFails = 1
   PfReserve = 0
-  PfMax = 1
-  Eager = TRUE
+  PfMax = 2
+  Eager = FALSE
 CHECK_DEADLOCK FALSE
 INVARIANTS
   NoPanic
@@ -40,7 +40,3 @@ INVARIANTS
   C13_CompletedOnce
   C14_AbortAllOnExceed
   C14_ExceededStopped
-  C01_OutcomeAtRest
-  C02_QuiescentOk
-PROPERTIES
-  StepProps
